@@ -78,12 +78,17 @@ Sim::Sim(const Plan& p, bool keep_trace)
 }
 
 Sim::~Sim() {
+    // a Sim that outlived its run (the reference run of the chunking differential) may be destroyed after other
+    // worlds came and went: timers and streams of a client that was never torn down (aborted run) must find theirs
+    sim::World* prev = sim::g_world;
+    sim::g_world = &w;
     client.reset();
     // run remaining handlers so that nothing holding references into this Sim survives
     for (int i = 0; i < 100000; ++i) {
         if (w.ioc.stopped()) w.ioc.restart();
         if (!w.ioc.poll_one()) break;
     }
+    if (prev && prev != &w) sim::g_world = prev;
     sim::g_shutdown_delay = nullptr;
     sim::g_resolver = nullptr;
 }
